@@ -158,7 +158,7 @@ pub fn c07(index: u64, case_seed: u64, acc: &mut Acc) {
         &pr.text,
         &case.signals,
         &case.script,
-        &RunOpts { max_steps: plan.len() + 4, probe_after_end: 0, stop_at_error: true, seed: Some(1) },
+        &RunOpts { max_steps: plan.len() + 4, probe_after_end: 0, stop_at_error: true, seed: Some(1), continue_on: None },
     );
     count_events(acc, &real);
     let h = case_hash(&case, &pr);
